@@ -575,7 +575,7 @@ def gen_big_doc(rng: random.Random, kb: int = 100) -> str:
     size = 0
     i = 0
     while size < kb * 1024:
-        ln = f"line {i} " + _word(rng) + " " + _word(rng) + ("  # caf\u00e9 \u65e5\u672c" if i % 97 == 0 else "")
+        ln = f"line {i} " + " ".join([_word(rng), _word(rng)] * 20) + ("  # caf\u00e9 \u65e5\u672c" if i % 7 == 0 else "")  # long lines: formatting cost is per line
         lines.append(ln)
         size += len(ln) + 1
         i += 1
